@@ -464,13 +464,46 @@ theorem length_interleave (frames : Nat) (is16 : Bool) (p : Bytes) :
 theorem frameLen_cases (is16 stereo : Bool) :
     frameLen is16 stereo = (if is16 then 2 else 1) * (if stereo then 2 else 1) := rfl
 
+theorem length_pre (flags : Nat) (is16 stereo : Bool) (len : Nat) (raw : Bytes) :
+    (Spec.pre flags is16 stereo len raw).length = raw.length := by
+  unfold Spec.pre
+  simp only
+  generalize len * (if stereo then 2 else 1) = cnt
+  generalize h1 : (if fl flags SAMPLE_FLAG_7BIT then Spec.shl1 cnt raw else raw) = d1
+  have l1 : d1.length = raw.length := by subst h1; split <;> simp
+  generalize h2 : (if (is16 && fl flags SAMPLE_FLAG_BIGEND) = true then Spec.bswap cnt d1 else d1) = d2
+  have l2 : d2.length = raw.length := by subst h2; split <;> simp [l1]
+  generalize h3 : (if fl flags SAMPLE_FLAG_DIFF = true then
+               (if is16 then Spec.delta16 len (if stereo then 2 else 1) d2 else Spec.delta8 len (if stereo then 2 else 1) d2)
+             else if fl flags SAMPLE_FLAG_8BDIFF = true then
+               Spec.delta8 (if is16 then len * 2 else len) (if stereo then 2 else 1) d2 else d2) = d3
+  have l3 : d3.length = raw.length := by
+    subst h3; split
+    · split <;> simp [l2]
+    · split <;> simp [l2]
+  generalize h4 : (if fl flags SAMPLE_FLAG_UNS = true then Spec.unsign cnt is16 d3 else d3) = d4
+  have l4 : d4.length = raw.length := by subst h4; split <;> simp [l3]
+  split <;> simp [l4]
+
+theorem length_pcm (flags : Nat) (is16 stereo : Bool) (n : Nat) (raw : Bytes)
+    (hraw : raw.length = n * frameLen is16 stereo) :
+    (Spec.pcm flags is16 stereo n raw).length = n * frameLen is16 stereo := by
+  unfold Spec.pcm
+  simp only
+  split
+  · rename_i h
+    simp only [Bool.and_eq_true] at h
+    rw [length_interleave, frameLen_cases, h.1]
+    cases is16 <;> simp <;> omega
+  · rw [length_pre, hraw]
+
 /-- **The conversion passes, in the C's order, compute the closed-form pipeline.** -/
 theorem convert_closed (flags : Nat) (is16 stereo : Bool) (len : Nat) (dest : Bytes)
     (hlen : dest.length = len * frameLen is16 stereo) :
     (let d := convert flags is16 len (if stereo then 2 else 1) dest
      if stereo && !fl flags SAMPLE_FLAG_INTERLEAVED then stereoInterleave len is16 d else d)
       = Spec.pcm flags is16 stereo len dest := by
-  simp only [convert, Spec.pcm, convert7bit_closed, convertVidc_closed]
+  simp only [convert, Spec.pcm, Spec.pre, convert7bit_closed, convertVidc_closed]
   generalize hc : len * (if stereo then 2 else 1) = cnt
   have hcnt : (if is16 then 2 else 1) * cnt = dest.length := by
     rw [hlen, ← hc, frameLen_cases]; cases is16 <;> cases stereo <;> simp <;> omega
@@ -816,5 +849,282 @@ theorem nth_adpcm4 : ∀ n d tab inp k, inp.length ≤ n → k < 2 * inp.length 
     generalize (List.getD tab (b.toNat % 16) 0).toNat = x0
     generalize (List.getD tab (b.toNat / 16) 0).toNat = x1
     omega
+
+/-! ### the part after the truncation block -/
+
+theorem loop_len (h : Hdr) : (Spec.loop h).len = h.len := by
+  unfold Spec.loop
+  simp only
+  split <;> rfl
+
+theorem frameLen_mem (is16 stereo : Bool) : frameLen is16 stereo = 1 ∨ frameLen is16 stereo = 2 ∨ frameLen is16 stereo = 4 := by
+  cases is16 <;> cases stereo <;> simp [frameLen]
+
+/-- the header the closed form returns -/
+def specHdr (flags : Nat) (h : Hdr) (n : Nat) : Hdr :=
+  let h1 := Spec.loop { h with len := (n : Int) }
+  if fl flags SAMPLE_FLAG_FULLREP ∧ h1.lps = 0 ∧ h1.len > h1.lpe
+  then { h1 with flg := setf h1.flg XMP_SAMPLE_LOOP_FULL } else h1
+
+theorem loadCore_closed (flags : Nat) (h : Hdr) (is16 stereo : Bool) (n : Nat) (f buffer raw : Bytes) (consumed : Nat)
+    (hread : readDest flags (n * frameLen is16 stereo) f buffer = some (raw, consumed))
+    (hraw : raw.length = n * frameLen is16 stereo) :
+    loadCore flags h is16 stereo (n * frameLen is16 stereo) (n : Int) f buffer =
+      .ok (specHdr flags h n) (Spec.withGuards (frameLen is16 stereo) (Spec.pcm flags is16 stereo n raw)) consumed := by
+  unfold loadCore
+  simp only [hread, loopSanity_closed, loop_len, Int.toNat_natCast]
+  have hc := convert_closed flags is16 stereo n raw hraw
+  simp only at hc
+  rw [hc, guards_closed _ (frameLen_mem is16 stereo) _ (by rw [length_pcm _ _ _ _ _ hraw]; simp)]
+  congr 1
+  unfold fullRep specHdr
+  simp only
+  by_cases hf : fl flags SAMPLE_FLAG_FULLREP = true
+  · simp only [hf, if_true, true_and]
+  · simp only [hf, if_false, false_and]
+    simp
+
+/-! ### the read -/
+
+theorem adpcm_read_closed (b : Nat) (table rest : Bytes) (hx : (b + 1) / 2 ≤ rest.length) :
+    (adpcm4 ((b + 1) / 2) 0 table (rest.take ((b + 1) / 2))).take b = Spec.adpcm b table rest := by
+  have hl : (rest.take ((b + 1) / 2)).length = (b + 1) / 2 := by simp; omega
+  apply ext_nth
+  · simp [length_adpcm4, hl, Spec.adpcm]; omega
+  · intro k hk
+    simp only [List.length_take, length_adpcm4, hl] at hk
+    have hkb : k < b := by omega
+    rw [nth_take _ _ _ hkb, nth_adpcm4 _ _ _ _ k (by omega) (by omega), Spec.adpcm, nth_build _ _ _ hkb]
+    apply ofNat_congr
+    have : psum (tv table (rest.take ((b + 1) / 2))) (k + 1)
+         = ((List.range (k + 1)).map fun j =>
+              (nth table (if j % 2 = 0 then (nth rest (j / 2)).toNat % 16 else (nth rest (j / 2)).toNat / 16)).toNat).sum := by
+      unfold psum
+      congr 1
+      apply List.map_congr_left
+      intro j hj
+      simp only [List.mem_range] at hj
+      simp only [tv]
+      rw [nth_take _ _ _ (by omega)]
+    rw [this]
+    simp
+
+theorem readDest_noload (flags b : Nat) (f buffer : Bytes) (h : fl flags SAMPLE_FLAG_NOLOAD = true) :
+    readDest flags b f buffer = some (buffer.take b, 0) := by simp [readDest, h]
+
+theorem readDest_adpcm (flags b : Nat) (f buffer : Bytes) (h : fl flags SAMPLE_FLAG_NOLOAD = false)
+    (ha : fl flags SAMPLE_FLAG_ADPCM = true) (h16 : 16 ≤ f.length) (hx : (b + 1) / 2 ≤ f.length - 16) :
+    readDest flags b f buffer = some (Spec.adpcm b (f.take 16) (f.drop 16), 16 + (b + 1) / 2) := by
+  have e1 : (f.take 16).length = 16 := by simp; omega
+  have e2 : ((f.drop 16).take ((b + 1) / 2)).length = (b + 1) / 2 := by simp; omega
+  simp [readDest, h, ha, shr1, e1, e2]
+  exact adpcm_read_closed b _ _ (by simp; omega)
+
+theorem readDest_plain (flags b : Nat) (f buffer : Bytes) (h : fl flags SAMPLE_FLAG_NOLOAD = false)
+    (ha : fl flags SAMPLE_FLAG_ADPCM = false) (hb : b ≤ f.length) :
+    readDest flags b f buffer = some (f.take b, b) := by
+  have e1 : (f.take b).length = b := by simp; omega
+  simp [readDest, h, ha, e1]
+
+/-! ### whole function -/
+
+/-- caller's obligation for `SAMPLE_FLAG_NOLOAD`: the buffer holds the declared sample -/
+def BufferOk (flags : Nat) (h : Hdr) (buffer : Bytes) : Prop :=
+  fl flags SAMPLE_FLAG_NOLOAD = true →
+    h.len.toNat * frameLen (sf h.flg XMP_SAMPLE_16BIT) (sf h.flg XMP_SAMPLE_STEREO) ≤ buffer.length
+
+theorem effBytes_le (a : Bool) (fl need rem : Nat) : Spec.effBytes a fl need rem ≤ (if a then 2 * (rem - 16) else rem) := by
+  unfold Spec.effBytes
+  have := Nat.div_mul_le_self (if a then min need (2 * (rem - 16)) else min need rem) fl
+  cases a <;> simp at this ⊢ <;> omega
+
+theorem effBytes_mul (a : Bool) (fl need rem : Nat) (hfl : 0 < fl) :
+    Spec.effBytes a fl need rem / fl * fl = Spec.effBytes a fl need rem := by
+  unfold Spec.effBytes
+  rw [Nat.mul_div_cancel _ hfl]
+
+
+theorem load_closed (flags : Nat) (h : Hdr) (skip : Bool) (f : Option Bytes) (buffer : Bytes)
+    (hbuf : BufferOk flags h buffer) :
+    load flags h skip f buffer = Spec.load flags h skip f buffer := by
+  unfold load Spec.load
+  by_cases hA : fl flags SAMPLE_FLAG_ADLIB = true
+  · simp [hA]
+  by_cases hL : h.len ≤ 0
+  · simp [hA, hL]
+  simp only [hA, hL, if_false, or_self, Bool.false_eq_true]
+  by_cases hS : h.len > MAX_SAMPLE_SIZE ∨ skip = true
+  · simp only [hS, if_true]
+    cases f <;> simp
+  simp only [hS, if_false]
+  obtain ⟨len, lps, lpe, flg⟩ := h
+  obtain ⟨n, rfl⟩ : ∃ n : Nat, len = n := ⟨len.toNat, (Int.toNat_of_nonneg (by simp at hL; omega)).symm⟩
+  simp only [Int.toNat_natCast] at *
+  generalize hi : sf flg XMP_SAMPLE_16BIT = is16 at *
+  generalize hs : sf flg XMP_SAMPLE_STEREO = stereo at *
+  have hfl := frameLen_mem is16 stereo
+  have hflpos : 0 < frameLen is16 stereo := by omega
+  by_cases hN : fl flags SAMPLE_FLAG_NOLOAD = true
+  · simp only [hN, if_true, Bool.not_true, Bool.false_eq_true, false_and, if_false, true_or]
+    have hb := hbuf hN
+    simp only [Int.toNat_natCast, hi, hs] at hb
+    rw [loadCore_closed flags _ is16 stereo n _ buffer _ 0 (readDest_noload _ _ _ _ hN) (by simp; omega)]
+    simp only [Nat.mul_div_cancel _ hflpos, specHdr]
+  · have hN' : fl flags SAMPLE_FLAG_NOLOAD = false := by simpa using hN
+    simp only [hN', Bool.false_eq_true, if_false, Bool.not_false, true_and, false_or]
+    cases f with
+    | none => simp
+    | some av =>
+      simp only [Option.getD_some, Option.isNone_some, Bool.false_eq_true, false_or]
+      rw [truncBlock_closed]
+      by_cases hz : av.length = 0
+      · simp [hz]
+      by_cases ha : fl flags SAMPLE_FLAG_ADPCM = true
+      · by_cases h16 : av.length < 16
+        · simp [ha, h16]
+        · have hcond : ¬ (av.length = 0 ∨ fl flags SAMPLE_FLAG_ADPCM = true ∧ av.length < 16) := by omega
+          simp only [hcond, if_false, ha, true_and, h16, or_false, hz]
+          generalize hb : Spec.effBytes true (frameLen is16 stereo) (n * frameLen is16 stereo) av.length = b
+          have hle := effBytes_le true (frameLen is16 stereo) (n * frameLen is16 stereo) av.length
+          have hmul := effBytes_mul true (frameLen is16 stereo) (n * frameLen is16 stereo) av.length hflpos
+          rw [hb] at hle hmul
+          simp only [if_true] at hle
+          obtain ⟨k, rfl⟩ : ∃ k, b = k * frameLen is16 stereo := ⟨_, hmul.symm⟩
+          rw [Nat.mul_div_cancel _ hflpos]
+          rw [loadCore_closed flags _ is16 stereo k av buffer _ _
+            (readDest_adpcm _ _ _ _ hN' ha (by omega) (by omega)) (by simp [Spec.adpcm])]
+          simp only [specHdr, if_true]
+      · have ha' : fl flags SAMPLE_FLAG_ADPCM = false := by simpa using ha
+        have hcond : ¬ (av.length = 0 ∨ fl flags SAMPLE_FLAG_ADPCM = true ∧ av.length < 16) := by
+          simp [ha', hz]
+        simp only [hcond, if_false, ha', Bool.false_eq_true, false_and, or_false, hz]
+        generalize hb : Spec.effBytes false (frameLen is16 stereo) (n * frameLen is16 stereo) av.length = b
+        have hle := effBytes_le false (frameLen is16 stereo) (n * frameLen is16 stereo) av.length
+        have hmul := effBytes_mul false (frameLen is16 stereo) (n * frameLen is16 stereo) av.length hflpos
+        rw [hb] at hle hmul
+        simp only [Bool.false_eq_true, if_false] at hle
+        obtain ⟨k, rfl⟩ : ∃ k, b = k * frameLen is16 stereo := ⟨_, hmul.symm⟩
+        rw [Nat.mul_div_cancel _ hflpos]
+        rw [loadCore_closed flags _ is16 stereo k av buffer _ _
+          (readDest_plain _ _ _ _ hN' ha' hle) (by simp; omega)]
+        simp only [specHdr, if_false, Bool.false_eq_true]
+
+/-! ### flag-bit algebra -/
+
+theorem bv_and_ext (g m m' : Flg) (h : m &&& m' = 0#32) : (g &&& ~~~m) &&& m' = g &&& m' := by
+  ext i hi
+  have := congrArg (fun v => v[i]) h
+  simp only [BitVec.getElem_and, BitVec.getElem_zero] at this
+  simp only [BitVec.getElem_and, BitVec.getElem_not]
+  cases g[i] <;> cases hm : m[i] <;> simp_all
+
+theorem bv_and_sub (g m m' : Flg) (h : m' &&& ~~~m = 0#32) : (g &&& ~~~m) &&& m' = 0#32 := by
+  ext i hi
+  have := congrArg (fun v => v[i]) h
+  simp only [BitVec.getElem_and, BitVec.getElem_zero, BitVec.getElem_not] at this
+  simp only [BitVec.getElem_and, BitVec.getElem_not, BitVec.getElem_zero]
+  cases g[i] <;> cases hm : m[i] <;> simp_all
+
+theorem bv_or_ext (g m m' : Flg) (h : m &&& m' = 0#32) : (g ||| m) &&& m' = g &&& m' := by
+  ext i hi
+  have := congrArg (fun v => v[i]) h
+  simp only [BitVec.getElem_and, BitVec.getElem_zero] at this
+  simp only [BitVec.getElem_and, BitVec.getElem_or]
+  cases g[i] <;> cases hm : m[i] <;> simp_all
+
+theorem sf_clr_other (g : Flg) (m m' : Nat) (h : BitVec.ofNat 32 m &&& BitVec.ofNat 32 m' = 0#32) :
+    sf (clr g m) m' = sf g m' := by simp only [sf, clr, bv_and_ext _ _ _ h]
+
+theorem sf_clr_sub (g : Flg) (m m' : Nat) (h : BitVec.ofNat 32 m' &&& ~~~ BitVec.ofNat 32 m = 0#32) :
+    sf (clr g m) m' = false := by simp [sf, clr, bv_and_sub _ _ _ h]
+
+theorem sf_setf_other (g : Flg) (m m' : Nat) (h : BitVec.ofNat 32 m &&& BitVec.ofNat 32 m' = 0#32) :
+    sf (setf g m) m' = sf g m' := by simp only [sf, setf, bv_or_ext _ _ _ h]
+
+
+theorem sTail_props (g : Flg) :
+    sf (sTail g) XMP_SAMPLE_LOOP = sf g XMP_SAMPLE_LOOP ∧
+    sf (sTail g) XMP_SAMPLE_SLOOP = sf g XMP_SAMPLE_SLOOP ∧
+    (sf (sTail g) XMP_SAMPLE_LOOP_BIDIR = true → sf (sTail g) XMP_SAMPLE_LOOP = true) ∧
+    (sf (sTail g) XMP_SAMPLE_SLOOP_BIDIR = true → sf (sTail g) XMP_SAMPLE_SLOOP = true) := by
+  have d1 : sf (clr g XMP_SAMPLE_LOOP_BIDIR) XMP_SAMPLE_LOOP = sf g XMP_SAMPLE_LOOP := sf_clr_other _ _ _ (by decide)
+  have d2 : sf (clr g XMP_SAMPLE_LOOP_BIDIR) XMP_SAMPLE_LOOP_BIDIR = false := sf_clr_sub _ _ _ (by decide)
+  have d3 : ∀ g : Flg, sf (clr g XMP_SAMPLE_SLOOP_BIDIR) XMP_SAMPLE_LOOP = sf g XMP_SAMPLE_LOOP :=
+    fun g => sf_clr_other _ _ _ (by decide)
+  have d4 : ∀ g : Flg, sf (clr g XMP_SAMPLE_SLOOP_BIDIR) XMP_SAMPLE_LOOP_BIDIR = sf g XMP_SAMPLE_LOOP_BIDIR :=
+    fun g => sf_clr_other _ _ _ (by decide)
+  have d5 : ∀ g : Flg, sf (clr g XMP_SAMPLE_SLOOP_BIDIR) XMP_SAMPLE_SLOOP = sf g XMP_SAMPLE_SLOOP :=
+    fun g => sf_clr_other _ _ _ (by decide)
+  have d6 : ∀ g : Flg, sf (clr g XMP_SAMPLE_SLOOP_BIDIR) XMP_SAMPLE_SLOOP_BIDIR = false :=
+    fun g => sf_clr_sub _ _ _ (by decide)
+  have d7 : sf (clr g XMP_SAMPLE_LOOP_BIDIR) XMP_SAMPLE_SLOOP = sf g XMP_SAMPLE_SLOOP := sf_clr_other _ _ _ (by decide)
+  have d8 : sf (clr g XMP_SAMPLE_LOOP_BIDIR) XMP_SAMPLE_SLOOP_BIDIR = sf g XMP_SAMPLE_SLOOP_BIDIR :=
+    sf_clr_other _ _ _ (by decide)
+  unfold sTail
+  cases h1 : sf g XMP_SAMPLE_LOOP <;> cases h2 : sf g XMP_SAMPLE_SLOOP <;>
+    simp [h1, h2, d1, d2, d3, d4, d5, d6, d7, d8]
+
+/-- **Loop points after loading** (all facts about `lps/lpe/flg` of the returned header). -/
+theorem specHdr_loop (flags : Nat) (h : Hdr) (n : Nat) :
+    let h' := specHdr flags h n
+    h'.len = n ∧ 0 ≤ h'.lps ∧ h'.lps ≤ h'.lpe ∧ h'.lpe ≤ n ∧
+    (sf h'.flg XMP_SAMPLE_LOOP = true → h'.lps < h'.lpe) ∧
+    (sf h'.flg XMP_SAMPLE_LOOP_BIDIR = true → sf h'.flg XMP_SAMPLE_LOOP = true) ∧
+    (sf h'.flg XMP_SAMPLE_SLOOP_BIDIR = true → sf h'.flg XMP_SAMPLE_SLOOP = true) ∧
+    (max h.lps 0 < min h.lpe n →
+      h'.lps = max h.lps 0 ∧ h'.lpe = min h.lpe n ∧ sf h'.flg XMP_SAMPLE_LOOP = sf h.flg XMP_SAMPLE_LOOP) ∧
+    (¬ max h.lps 0 < min h.lpe n → h'.lps = 0 ∧ h'.lpe = 0 ∧ sf h'.flg XMP_SAMPLE_LOOP = false) := by
+  intro h'
+  have e6 : sf (clr h.flg (XMP_SAMPLE_LOOP ||| XMP_SAMPLE_LOOP_BIDIR)) XMP_SAMPLE_LOOP = false :=
+    sf_clr_sub _ _ _ (by decide)
+  have f1 : ∀ g : Flg, sf (setf g XMP_SAMPLE_LOOP_FULL) XMP_SAMPLE_LOOP = sf g XMP_SAMPLE_LOOP :=
+    fun g => sf_setf_other _ _ _ (by decide)
+  have f2 : ∀ g : Flg, sf (setf g XMP_SAMPLE_LOOP_FULL) XMP_SAMPLE_LOOP_BIDIR = sf g XMP_SAMPLE_LOOP_BIDIR :=
+    fun g => sf_setf_other _ _ _ (by decide)
+  have f3 : ∀ g : Flg, sf (setf g XMP_SAMPLE_LOOP_FULL) XMP_SAMPLE_SLOOP = sf g XMP_SAMPLE_SLOOP :=
+    fun g => sf_setf_other _ _ _ (by decide)
+  have f4 : ∀ g : Flg, sf (setf g XMP_SAMPLE_LOOP_FULL) XMP_SAMPLE_SLOOP_BIDIR = sf g XMP_SAMPLE_SLOOP_BIDIR :=
+    fun g => sf_setf_other _ _ _ (by decide)
+  -- the header before the full-repeat flag
+  have key : ∀ h1 : Hdr, h1 = Spec.loop { h with len := (n : Int) } →
+      h1.len = n ∧ 0 ≤ h1.lps ∧ h1.lps ≤ h1.lpe ∧ h1.lpe ≤ n ∧
+      (sf h1.flg XMP_SAMPLE_LOOP = true → h1.lps < h1.lpe) ∧
+      (sf h1.flg XMP_SAMPLE_LOOP_BIDIR = true → sf h1.flg XMP_SAMPLE_LOOP = true) ∧
+      (sf h1.flg XMP_SAMPLE_SLOOP_BIDIR = true → sf h1.flg XMP_SAMPLE_SLOOP = true) ∧
+      (max h.lps 0 < min h.lpe n →
+        h1.lps = max h.lps 0 ∧ h1.lpe = min h.lpe n ∧ sf h1.flg XMP_SAMPLE_LOOP = sf h.flg XMP_SAMPLE_LOOP) ∧
+      (¬ max h.lps 0 < min h.lpe n → h1.lps = 0 ∧ h1.lpe = 0 ∧ sf h1.flg XMP_SAMPLE_LOOP = false) := by
+    intro h1 hh
+    by_cases hv : max h.lps 0 < min h.lpe (n : Int)
+    · have e : h1 = ⟨(n : Int), max h.lps 0, min h.lpe n, sTail h.flg⟩ := by
+        rw [hh]; unfold Spec.loop sTail; simp only [hv, if_true]
+      have sp := sTail_props h.flg
+      subst e
+      refine ⟨rfl, ?_, ?_, ?_, fun _ => hv, ?_, sp.2.2.2, fun _ => ⟨rfl, rfl, sp.1⟩, fun hc => absurd hv hc⟩
+      · show 0 ≤ max h.lps 0; omega
+      · show max h.lps 0 ≤ min h.lpe n; omega
+      · show min h.lpe (n : Int) ≤ n; omega
+      · exact sp.2.2.1
+    · let g0 := clr h.flg (XMP_SAMPLE_LOOP ||| XMP_SAMPLE_LOOP_BIDIR)
+      have e : h1 = ⟨(n : Int), 0, 0, sTail g0⟩ := by
+        rw [hh]; unfold Spec.loop sTail; simp only [hv, if_false]; rfl
+      have sp := sTail_props g0
+      have e6' : sf (sTail g0) XMP_SAMPLE_LOOP = false := by rw [sp.1]; exact e6
+      subst e
+      refine ⟨rfl, Int.le_refl _, Int.le_refl _, ?_, ?_, ?_, sp.2.2.2, fun hc => absurd hc hv, fun _ => ⟨rfl, rfl, e6'⟩⟩
+      · show (0 : Int) ≤ n; omega
+      · intro hc; rw [e6'] at hc; exact absurd hc (by simp)
+      · intro hc; have := sp.2.2.1 hc; rw [e6'] at this; exact absurd this (by simp)
+  have k := key _ rfl
+  generalize hh1 : Spec.loop { h with len := (n : Int) } = h1 at k
+  have hs : h' = if (fl flags SAMPLE_FLAG_FULLREP = true ∧ h1.lps = 0 ∧ h1.len > h1.lpe)
+      then { h1 with flg := setf h1.flg XMP_SAMPLE_LOOP_FULL } else h1 := by
+    show specHdr flags h n = _
+    unfold specHdr; simp only [hh1]
+  clear_value h'
+  subst hs
+  split
+  · simp only [f1, f2, f3, f4]; exact k
+  · exact k
 
 end Xmp.Sample
